@@ -1,10 +1,241 @@
-(* C11 — placeholder while the defect is being replayed; replaced by the full statements *)
+(* C11 — Alephium event fields map faithfully to the attested message.
+   The model (model/AlphConv.v) follows node/pkg/alephium/utils.go statement by statement; the range tests of
+   toUint8/toUint16, the field positions, the nonce width, the timestamp split, the chain id, the slices of
+   parseAttestToken and the contract-address shape are GENERATED from the Go source, the attestation payload
+   concatenation, its size assertions and the event's field order from the Ralph sources (gen/Extracted.v). *)
 From Coq Require Import Strings.String.
-From Coq Require Import List ZArith Bool Arith Strings.Byte.
-From WH Require Import lib.Bytes lib.Digits gen.Extracted model.Vaa model.AlphConv.
-Import ListNotations. Open Scope Z_scope.
-(* the statement the property needs; FAILS on the unrepaired source (65535 is rejected by `Cmp(max) < 0`) *)
-Example C11_target_65535_accepted : to_uint16 (vu256 65535) = COk 65535.
+From Coq Require Import List ZArith Lia Bool Arith.
+From Coq Require Import Strings.Byte.
+From WH Require Import lib.Bytes lib.Digits gen.Extracted model.Vaa model.AlphConv proofs.AlphConvProofs.
+Import ListNotations.
+Open Scope Z_scope.
+
+(* ------------------------------------------------------------------ (1) every fitting event is decoded exactly *)
+(* [event_fields] is the event as an Alephium node reports it (ByteVec as lower-case hex, U256 as canonical decimal
+   string) with the field order of the `event WormholeMessage` declaration of governance.ral. *)
+Theorem C11_fitting_event_decoded : forall sender target sequence nonce payload level txid,
+  length sender = 32%nat -> 0 <= target <= 65535 -> 0 <= sequence < 2 ^ 64 -> length nonce = 4%nat -> 0 <= level <= 255 ->
+  to_wormhole_message (event_fields sender target sequence nonce payload level) txid =
+  COk {| w_txid := txid; w_sender := sender; w_target := target; w_nonce := unbe nonce; w_payload := payload;
+         w_seq := sequence; w_cl := level |}.
+Proof. intros. apply wm_decodes; assumption. Qed.
+
+Example C11_fitting_event_decoded_ex :
+  to_wormhole_message (event_fields (repeat xab 32) 65535 18446744073709551615 [x12; xe5; x51; xd9] [x01; x02; x03] 255) (str "9fb8") =
+  COk {| w_txid := str "9fb8"; w_sender := repeat xab 32; w_target := 65535; w_nonce := 317018585; w_payload := [x01; x02; x03];
+         w_seq := 18446744073709551615; w_cl := 255 |}.
 Proof. vm_compute. reflexivity. Qed.
-Example C11_negative_rejected : to_uint8 (VU256 (str "U256") (str "-1")) = CErr EUint8.
-Proof. vm_compute. reflexivity. Qed.
+
+(* ------------------------------------------------------------------ (2) what is accepted, exactly *)
+(* An event is accepted iff it has exactly six fields of the right variants and type strings, the hex strings decode,
+   sender has 32 bytes, nonce 4, and the three decimal strings denote integers inside the target's ranges; the result
+   carries exactly the denoted values (no wrap, no truncation).  Everything else is an error ([cres] has two cases). *)
+Theorem C11_accepted_exactly : forall fields txid m,
+  to_wormhole_message fields txid = COk m <->
+  exists s0 s1 s2 s3 s4 s5 nonce,
+    fields = [VByteVec (str "ByteVec") s0; VU256 (str "U256") s1; VU256 (str "U256") s2;
+              VByteVec (str "ByteVec") s3; VByteVec (str "ByteVec") s4; VU256 (str "U256") s5] /\
+    hex_decode s0 = Some (w_sender m) /\ length (w_sender m) = 32%nat /\
+    parse_dec s1 = Some (w_target m) /\ 0 <= w_target m <= 65535 /\
+    parse_dec s2 = Some (w_seq m) /\ 0 <= w_seq m < 2 ^ 64 /\
+    hex_decode s3 = Some nonce /\ length nonce = 4%nat /\ w_nonce m = unbe nonce /\
+    hex_decode s4 = Some (w_payload m) /\
+    parse_dec s5 = Some (w_cl m) /\ 0 <= w_cl m <= 255 /\
+    w_txid m = txid.
+Proof.
+  intros fields txid m. split; [apply wm_accepts_only|].
+  intros (s0 & s1 & s2 & s3 & s4 & s5 & nonce & -> & D0 & L0 & P1 & R1 & P2 & R2 & D3 & L3 & EN & D4 & P5 & R5 & ET).
+  rewrite (wm_accepts_if s0 s1 s2 s3 s4 s5 _ _ _ _ _ _ txid D0 L0 P1 R1 P2 R2 D3 L3 D4 P5 R5).
+  destruct m as [tx se ta no pa sq cl]. cbn [w_txid w_sender w_target w_nonce w_payload w_seq w_cl] in *. subst. reflexivity.
+Qed.
+
+(* ------------------------------------------------------------------ (3) values that do not fit are rejected *)
+(* [fits bits (parse_dec s)]: the decimal string s denotes an integer in [0, 2^bits).  Whatever the other fields are. *)
+Theorem C11_unfit_value_rejected : forall f0 s1 s2 f3 f4 s5 txid,
+  ~ fits 16 (parse_dec s1) \/ ~ fits 64 (parse_dec s2) \/ ~ fits 8 (parse_dec s5) ->
+  exists e, to_wormhole_message [f0; VU256 (str "U256") s1; VU256 (str "U256") s2; f3; f4; VU256 (str "U256") s5] txid = CErr e.
+Proof. apply wm_rejects. Qed.
+
+Example C11_unfit_value_rejected_ex : ~ fits 16 (parse_dec (str "65536")) /\ ~ fits 8 (parse_dec (str "-1")) /\ ~ fits 64 (parse_dec (str "1e3")).
+Proof. repeat split; vm_compute; intros H; try destruct H; try discriminate; try contradiction. Qed.
+
+(* the same for the strings a node (or anything else) can put there, spelled out: canonical decimals above the range and
+   every negative decimal string *)
+Theorem C11_too_large_rejected : forall sender target sequence nonce payload level txid,
+  0 <= target -> 0 <= sequence -> 0 <= level -> 65535 < target \/ 2 ^ 64 <= sequence \/ 255 < level ->
+  exists e, to_wormhole_message (event_fields sender target sequence nonce payload level) txid = CErr e.
+Proof.
+  intros sender target sequence nonce payload level txid Ht Hs Hl H. rewrite event_fields_eq. apply wm_rejects.
+  rewrite !parse_dec_dec by assumption. cbn [fits]. change (2 ^ 16) with 65536. change (2 ^ 8) with 256. lia.
+Qed.
+
+Theorem C11_negative_rejected : forall f0 f3 f4 a b c n txid, 0 < n ->
+  let neg := VU256 (str "U256") ("-"%byte :: dec n) in
+  (exists e, to_wormhole_message [f0; neg; VU256 (str "U256") b; f3; f4; VU256 (str "U256") c] txid = CErr e) /\
+  (exists e, to_wormhole_message [f0; VU256 (str "U256") a; neg; f3; f4; VU256 (str "U256") c] txid = CErr e) /\
+  (exists e, to_wormhole_message [f0; VU256 (str "U256") a; VU256 (str "U256") b; f3; f4; neg] txid = CErr e).
+Proof.
+  intros f0 f3 f4 a b c n txid Hn. cbv zeta.
+  repeat apply conj; apply wm_rejects; [left|right; left|right; right]; rewrite parse_dec_neg by lia; cbn [fits]; lia.
+Qed.
+
+Example C11_negative_rejected_ex : to_uint8 (VU256 (str "U256") (str "-1")) = CErr EUint8 /\ to_uint16 (VU256 (str "U256") (str "-65537")) = CErr EUint16.
+Proof. vm_compute. split; reflexivity. Qed.
+
+(* wrong field count *)
+Theorem C11_wrong_count_rejected : forall fields txid, length fields <> 6%nat -> to_wormhole_message fields txid = CErr EFieldCount.
+Proof.
+  intros fields txid H. unfold to_wormhole_message. change go_wm_field_size with 6%nat.
+  destruct (Nat.eqb_spec (length fields) 6); [contradiction|reflexivity].
+Qed.
+
+(* the three narrowing conversions accept exactly the type's range and return the denoted value *)
+Theorem C11_narrowing_exact : forall f x,
+  (to_uint8 f = COk x <-> exists v, to_u256 f = COk v /\ v = x /\ 0 <= x <= 255) /\
+  (to_uint16 f = COk x <-> exists v, to_u256 f = COk v /\ v = x /\ 0 <= x <= 65535) /\
+  (to_uint64 f = COk x <-> exists v, to_u256 f = COk v /\ v = x /\ 0 <= x < 2 ^ 64).
+Proof. intros f x. split; [apply to_uint8_ok|split; [apply to_uint16_ok|apply to_uint64_ok]]. Qed.
+
+Example C11_boundaries_accepted : to_uint8 (vu256 255) = COk 255 /\ to_uint16 (vu256 65535) = COk 65535 /\
+  to_uint64 (vu256 18446744073709551615) = COk 18446744073709551615 /\ to_uint8 (vu256 256) = CErr EUint8 /\
+  to_uint16 (vu256 65536) = CErr EUint16 /\ to_uint64 (vu256 18446744073709551616) = CErr EUint64.
+Proof. vm_compute. repeat split; reflexivity. Qed.
+
+(* ------------------------------------------------------------------ (4) toMessagePublication *)
+(* chain id 255, every decoded value carried over, and the timestamp is exactly the block timestamp (milliseconds):
+   seconds * 10^9 + nanoseconds = ms * 10^6 with normalised nanoseconds, for every int64 ms (negative ones included) *)
+Theorem C11_message_publication : forall w ms,
+  let m := to_message_publication w ms in
+  m_echain m = 255 /\ m_tchain m = w_target w /\ m_eaddr m = w_sender w /\ m_seq m = w_seq w /\ m_cl m = w_cl w /\
+  m_nonce m = w_nonce w /\ m_payload m = w_payload w /\ m_tx m = hex_to_hash (w_txid w) /\
+  m_ts m * 1000000000 + m_tns m = ms * 1000000 /\ 0 <= m_tns m < 1000000000.
+Proof.
+  intros w ms. cbv zeta. pose proof (mp_fields w ms) as F. pose proof (mp_time w ms) as T. cbv zeta in F, T.
+  destruct F as (F1 & F2 & F3 & F4 & F5 & F6 & F7 & F8). destruct T as [T1 T2]. repeat apply conj; try assumption; lia.
+Qed.
+
+Theorem C11_timestamp_split : forall w ms, 0 <= ms ->
+  let m := to_message_publication w ms in m_ts m = ms / 1000 /\ m_tns m = (ms mod 1000) * 1000000.
+Proof. intros w ms H. apply mp_time_nonneg. exact H. Qed.
+
+Example C11_timestamp_split_ex :
+  let m := to_message_publication {| w_txid := []; w_sender := []; w_target := 2; w_nonce := 0; w_payload := []; w_seq := 7; w_cl := 1 |} 1663000000123 in
+  m_ts m = 1663000000 /\ m_tns m = 123000000 /\ m_echain m = 255.
+Proof. vm_compute. repeat split; reflexivity. Qed.
+
+(* a transaction id reported as 64 lower-case hex digits becomes exactly those 32 bytes *)
+Theorem C11_tx_hash : forall w ms id, length id = 32%nat -> w_txid w = to_hex id -> m_tx (to_message_publication w ms) = id.
+Proof.
+  intros w ms id L E. pose proof (mp_fields w ms) as F. cbv zeta in F.
+  destruct F as (_ & _ & _ & _ & _ & _ & _ & F8). rewrite F8, E. apply hex_to_hash_to_hex. exact L.
+Qed.
+
+(* ------------------------------------------------------------------ (5) hex <-> Byte32 are mutually inverse *)
+Theorem C11_hex_of_byte32 : forall b, length b = 32%nat -> hex_to_byte32 (to_hex b) = COk b.
+Proof. apply hex_to_byte32_to_hex. Qed.
+
+Theorem C11_byte32_of_hex : forall s b, hex_to_byte32 s = COk b -> forallb is_lower_hex s = true -> to_hex b = s /\ length b = 32%nat.
+Proof. apply to_hex_hex_to_byte32. Qed.
+
+Example C11_byte32_of_hex_ex : let s := str "deae14cf3bcfaea1f8f7e905fd8b554833d1bccaa8a9a1dd01f29fea6c7bca07" in
+  forallb is_lower_hex s = true /\ exists b, hex_to_byte32 s = COk b /\ to_hex b = s.
+Proof. cbv zeta. split; [vm_compute; reflexivity|]. eexists. split; vm_compute; reflexivity. Qed.
+
+(* ------------------------------------------------------------------ (6) contract id <-> contract address *)
+Theorem C11_contract_id_of_address : forall id a, length id = 32%nat ->
+  to_contract_address (to_hex id) = COk a -> to_contract_id a = COk id.
+Proof.
+  intros id a L H. rewrite (to_contract_address_hex id L) in H. inversion H; subst. apply contract_id_of_address. exact L.
+Qed.
+
+Theorem C11_contract_address_total : forall id, length id = 32%nat -> exists a, to_contract_address (to_hex id) = COk a.
+Proof. intros id L. eexists. apply to_contract_address_hex. exact L. Qed.
+
+(* conversely: an address that decodes to the contract type byte 3 followed by an id is the address of that id *)
+Theorem C11_contract_address_of_id : forall a id, to_contract_id a = COk id ->
+  length id = 32%nat /\ exists p, b58_decode a = p :: id /\ (p = x03 -> to_contract_address (to_hex id) = COk a).
+Proof. apply contract_address_of_id. Qed.
+
+Example C11_contract_address_ex : let id := repeat x00 31 ++ [x01] in
+  exists a, to_contract_address (to_hex id) = COk a /\ to_contract_id a = COk id /\ length a = 44%nat.
+Proof. cbv zeta. eexists. repeat split; vm_compute; reflexivity. Qed.
+
+(* ------------------------------------------------------------------ (7) attestation payloads *)
+(* [attest_payload] = what token_bridge.ral attestToken builds (generated concatenation, size assertions and
+   u256ToNByte! ranges); the node decodes it to the same id and decimals, and to symbol / name with the NUL padding
+   removed *)
+Theorem C11_attest_roundtrip : forall id decimals symbol name nonce p,
+  attest_payload id go_chain_id_alephium decimals symbol name nonce = Some p ->
+  parse_attest_token p = COk {| t_id := id; t_decimals := decimals; t_symbol := bytes_to_string symbol; t_name := bytes_to_string name |}.
+Proof.
+  intros id decimals symbol name nonce p H. apply attest_payload_inv in H as (-> & Li & Ls & Ln & _ & Hc & Hd).
+  rewrite (parse_attest_payload id go_chain_id_alephium decimals symbol name Li Ls Ln Hc Hd). rewrite Z.eqb_refl. reflexivity.
+Qed.
+
+(* a token bridge deployed with another chain id is rejected, not misread *)
+Theorem C11_attest_other_chain : forall id chain decimals symbol name nonce p, chain <> go_chain_id_alephium ->
+  attest_payload id chain decimals symbol name nonce = Some p -> parse_attest_token p = CErr EAttestChain.
+Proof.
+  intros id chain decimals symbol name nonce p N H. apply attest_payload_inv in H as (-> & Li & Ls & Ln & _ & Hc & Hd).
+  rewrite (parse_attest_payload id chain decimals symbol name Li Ls Ln Hc Hd).
+  destruct (Z.eqb_spec chain go_chain_id_alephium); [contradiction|reflexivity].
+Qed.
+
+(* NUL padding on either side of a string that neither starts nor ends with NUL is removed exactly *)
+Theorem C11_padding_removed : forall k j s, no_nul_ends s -> bytes_to_string (repeat x00 k ++ s ++ repeat x00 j) = s.
+Proof. apply bytes_to_string_padded. Qed.
+
+Theorem C11_attest_padded : forall id decimals sym name nonce p ks kn,
+  no_nul_ends sym -> no_nul_ends name ->
+  attest_payload id go_chain_id_alephium decimals (repeat x00 ks ++ sym) (repeat x00 kn ++ name) nonce = Some p ->
+  parse_attest_token p = COk {| t_id := id; t_decimals := decimals; t_symbol := sym; t_name := name |}.
+Proof.
+  intros id decimals sym name nonce p ks kn Hs Hn H. rewrite (C11_attest_roundtrip _ _ _ _ _ _ H).
+  pose proof (bytes_to_string_padded ks 0 sym Hs) as E1. pose proof (bytes_to_string_padded kn 0 name Hn) as E2.
+  cbn [repeat] in E1, E2. rewrite app_nil_r in E1, E2. rewrite E1, E2. reflexivity.
+Qed.
+
+Example C11_attest_padded_ex : no_nul_ends (str "ALPH") /\
+  exists p, attest_payload (repeat x07 32) go_chain_id_alephium 18 (repeat x00 28 ++ str "ALPH") (repeat x00 24 ++ str "Alephium") [x00; x00; x00; x01] = Some p /\
+            length p = 100%nat.
+Proof.
+  split; [apply no_nul_no_nul_ends; repeat constructor; discriminate|]. eexists. split; vm_compute; reflexivity.
+Qed.
+
+(* end to end: the event attestToken publishes, as reported by a node, decodes to a message whose payload parses to the
+   attested token *)
+Theorem C11_attest_event : forall bridge id decimals symbol name nonce p sequence level txid,
+  length bridge = 32%nat -> 0 <= sequence < 2 ^ 64 -> 0 <= level <= 255 ->
+  attest_payload id go_chain_id_alephium decimals symbol name nonce = Some p ->
+  exists w, to_wormhole_message (event_fields bridge ral_attest_target_chain sequence nonce p level) txid = COk w /\
+            w_sender w = bridge /\ w_target w = 0 /\ w_seq w = sequence /\ w_cl w = level /\
+            parse_attest_token (w_payload w) =
+            COk {| t_id := id; t_decimals := decimals; t_symbol := bytes_to_string symbol; t_name := bytes_to_string name |}.
+Proof.
+  intros bridge id decimals symbol name nonce p sequence level txid Lb Hs Hl H.
+  pose proof (attest_payload_inv _ _ _ _ _ _ _ H) as (_ & _ & _ & _ & Ln & _ & _).
+  eexists. split; [apply wm_decodes; try assumption; change ral_attest_target_chain with 0; lia|].
+  cbn [w_sender w_target w_seq w_cl w_payload]. repeat apply conj; try reflexivity.
+  apply (C11_attest_roundtrip _ _ _ _ _ _ H).
+Qed.
+
+Print Assumptions C11_fitting_event_decoded.
+Print Assumptions C11_accepted_exactly.
+Print Assumptions C11_unfit_value_rejected.
+Print Assumptions C11_too_large_rejected.
+Print Assumptions C11_negative_rejected.
+Print Assumptions C11_wrong_count_rejected.
+Print Assumptions C11_narrowing_exact.
+Print Assumptions C11_message_publication.
+Print Assumptions C11_timestamp_split.
+Print Assumptions C11_tx_hash.
+Print Assumptions C11_hex_of_byte32.
+Print Assumptions C11_byte32_of_hex.
+Print Assumptions C11_contract_id_of_address.
+Print Assumptions C11_contract_address_total.
+Print Assumptions C11_contract_address_of_id.
+Print Assumptions C11_attest_roundtrip.
+Print Assumptions C11_attest_other_chain.
+Print Assumptions C11_padding_removed.
+Print Assumptions C11_attest_padded.
+Print Assumptions C11_attest_event.
